@@ -861,3 +861,127 @@ Definition out_eqb (a b : out) : bool :=
 (* a correspondence case: configuration, I::MAX, history, observed outputs *)
 Definition case_ok (pl : pool) (c : config) (max : N) (ops : list op) (observed : list out) : bool :=
   list_eqb out_eqb (run pl (impl_of c max) ops) observed.
+
+(* ================================================================================== *)
+(* 13. the extended alphabet: bulk constructors, clones, failing sources, term count    *)
+(* ================================================================================== *)
+(* CollectibleDataset::from_quad_source / CollectibleGraph::from_triple_source (also reached through
+   QuadSource::collect_quads / TripleSource::collect_triples).  inmem/src/{dataset,graph}.rs:
+   [let mut d = Self::new(); quads.try_for_each_quad(|q| d.insert_quad(q).map(|_| ()))?; Ok(d)], i.e.
+   insert_all on the empty store without the count; the std-collection stores of _foreign_impl.rs
+   push / insert every item, which is the same fold.  None: Err(SinkError(TermIndexFullError)). *)
+Definition api_collect (I : impl) (l : list quad) : option (St I) :=
+  match api_insert_all I (i_init I) l 0 with
+  | (s, Some _) => Some s
+  | (_, None) => None
+  end.
+
+Inductive xop :=
+| XBase (o : op)
+| XClone                                  (* d = d.clone(); the other copy is mutated, then dropped *)
+| XCollect (l : list quad) (fail : bool)  (* D::from_quad_source(l [, then a source error]); the result,
+                                             if Ok, REPLACES the store; otherwise the store is kept *)
+| XInsertAllFail (l : list quad)          (* insert_all of a source that yields l, then fails *)
+| XRemoveAllFail (l : list quad)          (* remove_all of a source that yields l, then fails *)
+| XTermCount.                             (* SimpleTermIndex::len of the store's term index *)
+
+(* outputs of the new operations: OFlag true = Ok, OFlag false = Err(SourceError), OErr = Err(SinkError) *)
+Definition xstep (pl : pool) (I : impl) (tc : St I -> option N) (s : St I) (o : xop) : St I * out :=
+  match o with
+  | XBase o => step pl I s o
+  | XClone => (s, OUnit)
+  | XCollect l fail =>
+      match api_collect I l with
+      | None => (s, OErr)
+      | Some s' => if fail then (s, OFlag false) else (s', OFlag true)
+      end
+  | XInsertAllFail l =>
+      let '(s', r) := api_insert_all I s l 0 in
+      (s', match r with None => OErr | Some _ => OFlag false end)
+  | XRemoveAllFail l => (fst (api_remove_all I s l 0), OFlag false)
+  | XTermCount => (s, match tc s with Some n => OCount n | None => OUnit end)
+  end.
+Fixpoint xrun_from (pl : pool) (I : impl) (tc : St I -> option N) (s : St I) (xs : list xop) : list out :=
+  match xs with
+  | [] => []
+  | o :: xs' => let '(s', r) := xstep pl I tc s o in r :: xrun_from pl I tc s' xs'
+  end.
+
+(* the same on the specification machine; [counted]: the store has a term index whose length is observable *)
+Definition xspec_step (pl : pool) (cap : option N) (isgraph counted : bool) (sp : sstate) (o : xop) : sstate * out :=
+  match o with
+  | XBase o => spec_step pl cap isgraph sp o
+  | XClone => (sp, OUnit)
+  | XCollect l fail =>
+      match spec_insert_all cap isgraph (mkS [] []) l 0 with
+      | (_, None) => (sp, OErr)
+      | (sp', Some _) => if fail then (sp, OFlag false) else (sp', OFlag true)
+      end
+  | XInsertAllFail l =>
+      let '(sp', r) := spec_insert_all cap isgraph sp l 0 in
+      (sp', match r with None => OErr | Some _ => OFlag false end)
+  | XRemoveAllFail l => (fst (spec_remove_all isgraph sp l 0), OFlag false)
+  | XTermCount => (sp, if counted then OCount (N.of_nat (length (s_terms sp))) else OUnit)
+  end.
+Fixpoint xspec_run_from pl cap isgraph counted (sp : sstate) (xs : list xop) : list out :=
+  match xs with
+  | [] => []
+  | o :: xs' => let '(sp', r) := xspec_step pl cap isgraph counted sp o in
+                r :: xspec_run_from pl cap isgraph counted sp' xs'
+  end.
+Definition xspec_run pl cap isgraph counted (xs : list xop) : list out :=
+  xspec_run_from pl cap isgraph counted (mkS [] []) xs.
+
+(* the length of the term index of the four sophia_inmem stores (SimpleTermIndex::len = i2t.len()) *)
+Definition term_count (c : config) (max : N) : St (impl_of c max) -> option N :=
+  match c return St (impl_of c max) -> option N with
+  | LightGraph => fun s => Some (tlen (g_ti s))
+  | FastGraph => fun s => Some (tlen (g_ti s))
+  | LightDataset => fun s => Some (tlen (d_ti s))
+  | FastDataset => fun s => Some (tlen (d_ti s))
+  | _ => fun _ => None
+  end.
+Definition xrun (pl : pool) (c : config) (max : N) (xs : list xop) : list out :=
+  xrun_from pl (impl_of c max) (term_count c max) (i_init (impl_of c max)) xs.
+Definition xcase_ok (pl : pool) (c : config) (max : N) (xs : list xop) (observed : list out) : bool :=
+  list_eqb out_eqb (xrun pl c max xs) observed.
+
+(* ================================================================================== *)
+(* 14. SimpleTermIndex<I> used directly through TermIndex / GraphNameIndex              *)
+(* ================================================================================== *)
+Inductive ti_op :=
+| TiEnsure (t : N)              (* ensure_index: Some i / None = Err(TermIndexFullError) *)
+| TiGet (t : N)                 (* get_index *)
+| TiTerm (i : N)                (* get_term (i valid) -> Some t *)
+| TiGraphName (i : N)           (* get_graph_name (i valid or MAX); None = the default graph *)
+| TiGnIndex (g : option N)      (* get_graph_name_index *)
+| TiDefault                     (* get_default_graph_index -> Some MAX *)
+| TiLen                         (* len (and is_empty) -> Some n *)
+| TiClone.                      (* ti = ti.clone(), the original is dropped -> None *)
+Definition ti_step (max : N) (ti : tindex) (o : ti_op) : tindex * option N :=
+  match o with
+  | TiEnsure t => ensure_index max ti t
+  | TiGet t => (ti, get_index ti t)
+  | TiTerm i => (ti, Some (get_term ti i))
+  | TiGraphName i => (ti, get_graph_name max ti i)
+  | TiGnIndex g => (ti, get_gn_index max ti g)
+  | TiDefault => (ti, Some max)
+  | TiLen => (ti, Some (tlen ti))
+  | TiClone => (ti, None)
+  end.
+Fixpoint ti_run_from (max : N) (ti : tindex) (ops : list ti_op) : list (option N) :=
+  match ops with
+  | [] => []
+  | o :: ops' => let '(ti', r) := ti_step max ti o in r :: ti_run_from max ti' ops'
+  end.
+Definition ti_final (max : N) (ops : list ti_op) : tindex :=
+  fold_left (fun ti o => fst (ti_step max ti o)) ops ti_empty.
+(* what the index must hold according to the specification's [intern] *)
+Fixpoint ti_spec (max : N) (ts : list N) (ops : list ti_op) : list N :=
+  match ops with
+  | [] => ts
+  | TiEnsure t :: r => ti_spec max (match intern (Some max) ts t with Some ts' => ts' | None => ts end) r
+  | _ :: r => ti_spec max ts r
+  end.
+Definition ti_case_ok (max : N) (ops : list ti_op) (observed : list (option N)) : bool :=
+  list_eqb (opt_eqb N.eqb) (ti_run_from max ti_empty ops) observed.
